@@ -23,6 +23,14 @@ STDLIB_IMPORTS = {"annotations": "__future__", "Iterable": "collections.abc", "O
 
 def analyse(fam, shape, placement, outcomes):
     out = []
+    from .c17 import oracle
+    hard, cond = oracle(shape, placement)
+    if not hard and not cond:
+        rej = [o for o in outcomes if o.rejected]
+        out.append(("C18.V1 generator-succeeds-on-every-valid-shape", "%r in %s" % (shape.key, placement), not rej,
+                    "well-formed by the grammar's rules, accepted on all %d path(s)" % len(outcomes) if not rej else
+                    "well-formed by the grammar's rules but rejected: %s [path %s]" % (rej[0].exc[:100], rej[0].path()),
+                    "C18.V1 | %s | %s" % (shape.key[0], "" if not rej else rej[0].exc[:60])))
     for o in outcomes:
         if o.rejected:
             continue
